@@ -692,7 +692,7 @@ func runExecution(spec *graphSpec, strat strategy, work string) (res execResult)
 	// a ticker wakes the waiters so that the watchdog can be evaluated
 	stopTick := make(chan struct{})
 	go func() {
-		t := time.NewTicker(200 * time.Millisecond)
+		t := time.NewTicker(50 * time.Millisecond)
 		defer t.Stop()
 		for {
 			select {
